@@ -2,6 +2,10 @@
 
 CORRESPONDENCES = {
     # K-ctl: the real async_launch::launch under harness-dictated schedules vs the L6 state machine
+    # K-codec: Value::to_json / value_util::from_json_value vs toJson / fromJson
+    "codec": {"sub": "codec", "cases": {"quick": 12000, "thorough": 400000}, "shards": {"quick": 4, "thorough": 16}},
+    # K-ops: Crossover::crossover / mutation::mutate in operation sequences sharing one PathContext vs crossAcc / mutAcc
+    "ops": {"sub": "ops", "cases": {"quick": 3000, "thorough": 60000}, "shards": {"quick": 6, "thorough": 16}},
     "ctl": {"sub": "ctl", "cases": {"quick": 1500, "thorough": 40000}, "shards": {"quick": 4, "thorough": 16}},
 }
 
@@ -21,7 +25,21 @@ CTL_TRUST = [
     "tokio/futures scheduling is outside the model: an event is 'the select! loop takes this completion / abort signal'",
 ]
 
+CODEC_TRUST = [
+    "model L1/L2 (Spec.lean, Json.lean) is hand-written; tied to value.rs/value_util.rs by correspondence K-codec (round trips, both map encodings, single-defect corruptions of values and of JSON, arbitrary JSON)",
+    "serde_json text <-> tree is outside the model (the model starts at the serde_json::Value tree); float law FL-cast (i64 -> f64 is total and finite)",
+]
+
 PROPS = {
+    "C11": {
+        "modules": ["CambrianModel.Props.C11"],
+        "theorems": ["Cambrian.Props.C11_reject", "Cambrian.Props.C11_rt_json", "Cambrian.Props.C11_rt_value",
+                     "Cambrian.Props.C11_init_conf", "Cambrian.Props.C11_same", "Cambrian.Props.C11_before"],
+        "correspondences": ["codec", "ctl"],
+        "trusted": CODEC_TRUST + CTL_TRUST,
+        "assumptions": ["JSON documents: integers answered by as_i64 are in the i64 range, floats are finite, arrays have at most usize::MAX elements (jvalid, jsized)",
+                        "round trip is stated for the model's own field order of map objects (numeric key order); the real serde_json order (string order) is covered by K-codec"],
+    },
     "C02": {
         "modules": ["CambrianModel.Props.C02"],
         "theorems": ["Cambrian.Props.C02_member", "Cambrian.Props.C02_min1", "Cambrian.Props.C02_nonempty1",
